@@ -67,7 +67,17 @@ def _uninstall(undo):
         setattr(cls, name, orig)
 
 
-def run_once(net, script=None, default="identity", sched_seed=0):
+def run_once(net, script=None, default="identity", sched_seed=0, exec_mode=None):
+    """Run one (network, schedule) in a forked child (pristine process state, like fresh workers)."""
+    from .. import scenario_kit as sk
+
+    try:
+        return sk.run_isolated(_run_once, net, script, default, sched_seed, exec_mode, timeout=600.0)
+    except sk.IsolatedRunError as e:
+        return {"digests": [], "facts": [], "batches": None, "error": ("run-raised-IsolatedRunError-harness", str(e)[:500])}
+
+
+def _run_once(net, script=None, default="identity", sched_seed=0, exec_mode=None):
     """Run one (network, schedule); returns per-step digests, bookkeeping facts and the batches seen."""
     from .. import scenario_kit as sk
     from .. import shimray
@@ -75,7 +85,8 @@ def run_once(net, script=None, default="identity", sched_seed=0):
     sk.init()
     sched = shimray.make_sched_script(script, default=default, seed=sched_seed)
     cfg = netkit.net_cfg(net)
-    b = sk.build(cfg, scheduler=sched, base_seed=net["seed"])
+    exec_order = None if exec_mode is None else (shimray.exec_reverse if exec_mode == "reverse" else shimray.make_exec_random(sched_seed + 17))
+    b = sk.build(cfg, scheduler=sched, base_seed=net["seed"], exec_order=exec_order)
     rec = Rec()
     undo = _install(rec)
     out = {"digests": [], "facts": [], "batches": None, "error": None}
@@ -166,7 +177,8 @@ def check_bookkeeping(ctx, net, res, sched_desc):
 
 def schedules_for(net, base_batches, rng, quick):
     """Scripts to run besides identity: list of (description, script dict, default, seed)."""
-    out = [("reverse", None, "reverse", 0), ("random-a", None, "random", rng.randrange(1 << 30))]
+    out = [("reverse", None, "reverse", 0), ("random-a", None, "random", rng.randrange(1 << 30)),
+           ("exec-reverse", None, "identity", 0, "reverse"), ("exec-random+random", None, "random", rng.randrange(1 << 30), "random")]
     if not quick:
         out.append(("random-b", None, "random", rng.randrange(1 << 30)))
     # index batches per function
@@ -200,7 +212,7 @@ def schedules_for(net, base_batches, rng, quick):
 
 def eval_net(ctx, net, rng):
     base = run_once(net)
-    if base["error"] and "LinAlgError" in base["error"][0]:
+    if base["error"] and ("LinAlgError" in base["error"][0] or "invalid numeric entries" in base["error"][1]):
         # a diverged filter (hostile estimate settings) aborts the run: nothing to compare; not this property's subject
         ctx.count("networks_skipped_filter_divergence")
         return 0, False
@@ -210,13 +222,15 @@ def eval_net(ctx, net, rng):
     tasked = check_bookkeeping(ctx, net, base, "identity")
     nsched = 1
     ctx.add_to_set("schedule_scripts", "identity")
-    for desc, script, default, seed in schedules_for(net, base["batches"], rng, ctx.quick):
+    for entry in schedules_for(net, base["batches"], rng, ctx.quick):
+        desc, script, default, seed = entry[:4]
+        exec_mode = entry[4] if len(entry) > 4 else None
         if ctx.time_left() < 5:
             break
-        res = run_once(net, script, default, seed)
-        sd = {"desc": desc, "script": {f"{k[0]}#{k[1]}" if isinstance(k, tuple) else k: list(v) for k, v in (script or {}).items()}, "default": default, "seed": seed}
+        res = run_once(net, script, default, seed, exec_mode)
+        sd = {"desc": desc, "script": {f"{k[0]}#{k[1]}" if isinstance(k, tuple) else k: list(v) for k, v in (script or {}).items()}, "default": default, "seed": seed, "exec_mode": exec_mode}
         wit = {"kind": "c08", "net": net, "schedule": sd}
-        if res["error"] and "LinAlgError" in res["error"][0]:
+        if res["error"] and ("LinAlgError" in res["error"][0] or "invalid numeric entries" in res["error"][1]):
             ctx.count("schedules_skipped_filter_divergence")
             continue
         if res["error"]:
@@ -270,7 +284,7 @@ def replay(ctx, w):
             script[k] = tuple(v)
     base = run_once(net)
     check_bookkeeping(ctx, net, base, "identity")
-    res = run_once(net, script or None, sd.get("default", "identity"), sd.get("seed", 0))
+    res = run_once(net, script or None, sd.get("default", "identity"), sd.get("seed", 0), sd.get("exec_mode"))
     if res["error"] or base["error"]:
         ctx.check(False, (res["error"] or base["error"])[0], str(res["error"] or base["error"]), w, mon="order_indep")
         return
